@@ -7,6 +7,21 @@ PROPS = {
         rules=["HdrFields", "FlagAlgebra"],
         shards=8,
     ),
+    "C02": dict(
+        gen=[dict(module="Gen_Packet", cfg="Gen_Packet.cfg", out="packet_cases.ndjson",
+                  simulate=dict(quick="num=1500", thorough="num=25000", depth=40))],
+        topic="packet",
+        rules=["NoPanic", "BuildOk", "RoundTrip"],
+        shards=12,
+    ),
+    "C09": dict(
+        gen=[dict(module="Gen_Packet", cfg="Gen_Packet.cfg", out="packet_cases.ndjson",
+                  simulate=dict(quick="num=1500", thorough="num=25000", depth=40)),
+             dict(module="Gen_Edns", cfg="Gen_Edns.cfg", out="edns_cases.ndjson")],
+        topic="edns",
+        rules=["NoPanic", "BuildOk", "PlainCanonical", "RoundTrip", "ParseEqRef", "MustAccept"],
+        shards=12,
+    ),
     "C06": dict(
         mc=["MC_NameWire"],
         never_ok=["OOBRead"],   # the out-of-bounds read must be unreachable in the (repaired) design
@@ -90,5 +105,26 @@ TEXT = {
               "order, inner length overrun) must be rejected. Verdicts by TLC in the trace specification."),
         note=_TRUSTED,
         technique="TLA+ declarative RDATA schemas + generic Ref codec; TLC-generated cases replayed into the crate; trace validation",
+    ),
+    "C02": dict(
+        text=("TLC random-walks the packet-builder state machine of the specification (Gen_Packet: NewQuery/NewReply, "
+              "SetFlags, RemoveFlags, SetOpcode, SetRcode, SetOpt, Push* over every record type, the bounded value "
+              "domains, all classes, QTYPE/QCLASS specials, binary and maximal names, boundary TTLs; 1500 behaviours "
+              "quick, 25000 thorough), checking the Ref codec identity on every state; each finished packet is built "
+              "through the real public API, serialised without compression and parsed back; TLC judges "
+              "parse(build(p)) = p field by field in the trace specification. One-record packets of every (type, value "
+              "tuple) are covered exhaustively by C10's generator."),
+        note=_TRUSTED + " rcode BADVERS without OPT and zero-string TXT are outside the wire-representable domain and not generated.",
+        technique="TLA+ builder state machine simulated by TLC, behaviours replayed into the crate, round trip validated by the trace spec",
+    ),
+    "C09": dict(
+        text=("Build side: every EDNS version 0..255, every named 12-bit rcode, boundary and random UDP sizes and option "
+              "lists, and all OPT-carrying packets of the builder state machine are serialised by the crate; TLC "
+              "requires the bytes to equal the RFC 6891 reference encoding byte for byte (one OPT in AR counted once, "
+              "root owner, CLASS = size, TTL = ext-rcode|version|flags, option triples). Parse side: TLC generates "
+              "reference-encoded third-party messages (OPT first/middle/last, DO bit, rcode x version) which the "
+              "crate must accept and expose exactly as the reference decoder does."),
+        note=_TRUSTED,
+        technique="TLA+ Message/EDNS Ref codec; TLC-generated messages and builder behaviours replayed; trace validation",
     ),
 }
